@@ -148,6 +148,10 @@ pub fn shapes(seed: u64, sample: usize, max_len: usize, max_m: usize, wd: &Watch
         }
         if rng.gen::<f64>() < 0.3 { s.insert("presolve_enable".into(), json!(false)); }
         if rng.gen::<f64>() < 0.3 { s.insert("equilibrate_enable".into(), json!(false)); }
+        if rng.gen::<f64>() < 0.25 { s.insert("static_regularization_enable".into(), json!(false)); }
+        if rng.gen::<f64>() < 0.25 { s.insert("dynamic_regularization_enable".into(), json!(false)); }
+        if rng.gen::<f64>() < 0.15 { s.insert("iterative_refinement_enable".into(), json!(false)); }
+        if rng.gen::<f64>() < 0.15 { s.insert("direct_solve_method".into(), json!("qdldl")); }
         p.settings = Value::Object(s);
         let case = json!({"run": run, "problem": p});
         wd.tick(&case);
@@ -295,6 +299,25 @@ fn parse_config(buf: &str) -> Value {
             if let Some(k) = r.split(',').next().and_then(|x| x.trim().parse::<i64>().ok()) { m.insert("max_iter".into(), json!(k)); }
         }
     }
+    // the settings block as an ordered list of (key, value) pairs exactly as printed
+    let mut pairs: Vec<Value> = vec![];
+    let mut in_settings = false;
+    for l in buf.lines() {
+        if l.starts_with("settings:") { in_settings = true; continue; }
+        if in_settings {
+            if l.trim().is_empty() { break; }
+            for piece in l.split(',') {
+                let piece = piece.trim();
+                if let Some((k, v)) = piece.split_once(" = ") {
+                    pairs.push(json!([k.trim(), v.trim()]));
+                } else if let Some((k, v)) = piece.split_once(':') {
+                    let v = v.trim();
+                    if v == "on" || v == "false" { pairs.push(json!([k.trim(), v])); }
+                }
+            }
+        }
+    }
+    m.insert("settings".into(), Value::Array(pairs));
     Value::Object(m)
 }
 
@@ -389,7 +412,7 @@ pub fn print_case(run: usize, p: &Problem, dir: &str) -> Value {
             "parsed": rec_ipm::parse_print(&b1), "config": parse_config(&b1),
             "internal": {"n": d.n, "m": d.m, "nnzP": d.P.nnz(), "nnzA": d.A.nnz(), "ncones": d.cones.len(),
                          "removed": removed, "has_presolver": removed > 0, "cones": ccount,
-                         "max_iter": p.settings().max_iter},
+                         "max_iter": p.settings().max_iter, "settings": expected_settings(&p.settings())},
             "status": STATUS_NAMES[sol.status as usize], "iterations": sol.iterations,
             "last": {"has": lr.is_some(), "iter": lr.as_ref().and_then(|r| r.first()).and_then(|x| x.parse::<i64>().ok()).unwrap_or(-1),
                      "pcost": fj(tok(1)), "dcost": fj(tok(2)), "pres": fj(tok(4)), "dres": fj(tok(5)),
@@ -403,4 +426,24 @@ pub fn print_case(run: usize, p: &Problem, dir: &str) -> Value {
         Ok(v) => v,
         Err(e) => json!({"ev": "Panic", "run": run, "msg": rec_ipm::panic_msg(e)}),
     }
+}
+
+/// the settings block as the documented formats print it (ordered key/value pairs)
+pub fn expected_settings(s: &DefaultSettings<f64>) -> Value {
+    let onoff = |b: bool| if b { "on" } else { "false" };
+    let tl = if s.time_limit.is_infinite() { "Inf".to_string() } else { format!("{:?}", s.time_limit) };
+    json!([
+        ["max iter", format!("{}", s.max_iter)], ["time limit", tl], ["max step", format!("{:.3}", s.max_step_fraction)],
+        ["tol_feas", format!("{:.1e}", s.tol_feas)], ["tol_gap_abs", format!("{:.1e}", s.tol_gap_abs)],
+        ["tol_gap_rel", format!("{:.1e}", s.tol_gap_rel)],
+        ["static reg", onoff(s.static_regularization_enable)], ["ϵ1", format!("{:.1e}", s.static_regularization_constant)],
+        ["ϵ2", format!("{:.1e}", s.static_regularization_proportional)],
+        ["dynamic reg", onoff(s.dynamic_regularization_enable)], ["ϵ", format!("{:.1e}", s.dynamic_regularization_eps)],
+        ["δ", format!("{:.1e}", s.dynamic_regularization_delta)],
+        ["iter refine", onoff(s.iterative_refinement_enable)], ["reltol", format!("{:.1e}", s.iterative_refinement_reltol)],
+        ["abstol", format!("{:.1e}", s.iterative_refinement_abstol)],
+        ["max iter", format!("{}", s.iterative_refinement_max_iter)], ["stop ratio", format!("{:.1}", s.iterative_refinement_stop_ratio)],
+        ["equilibrate", onoff(s.equilibrate_enable)], ["min_scale", format!("{:.1e}", s.equilibrate_min_scaling)],
+        ["max_scale", format!("{:.1e}", s.equilibrate_max_scaling)], ["max iter", format!("{}", s.equilibrate_max_iter)],
+    ])
 }
